@@ -69,9 +69,18 @@ def patterns_of(calls, y, p, resets=()):
     return pats
 
 
+def impl_module(c):
+    """the module whose kernels are run: the lazily compiled ops package, or the legacy single-file module ops/whit.py (X08)"""
+    if c.get("impl") == "legacy":
+        from hdc.algo.ops import whit
+        return whit
+    from hdc.algo import ops
+    return ops
+
+
 def run_source(c):
     """interpreted source of the kernel with ws2d recorded -> (calls, outputs)"""
-    from hdc.algo import ops
+    ops = impl_module(c)
 
     name, _ = VARIANTS[c["variant"]]
     fn, recs = interp.rebuild(getattr(ops, name), record=("ws2d",))
@@ -91,7 +100,7 @@ def run_source(c):
 
 def execute(c):
     """compiled run (+ accessor if asked) and hints from the source; fills out, lopt, pats, fhints"""
-    from hdc.algo import ops
+    ops = impl_module(c)
 
     name, hasp = VARIANTS[c["variant"]]
     c["hasp"] = hasp
